@@ -179,7 +179,7 @@ InScope(dt, v) ==
     [] dt = "f" -> v.k \in {"float", "str"}
     [] dt = "Z" -> v.k = "str"
     [] dt = "A" -> v.k = "str"
-    [] dt = "J" -> v.k \in {"dict", "list", "numlist", "str"}
+    [] dt = "J" -> v.k \in {"dict", "list", "numlist", "numarray", "str"}   \* (a NumericArray is a list)
     [] dt = "B" -> v.k \in {"numlist", "numarray", "str"}
     [] dt = "H" -> v.k \in {"bytearray", "str"}
     [] OTHER -> FALSE
@@ -195,7 +195,7 @@ Representable(dt, v) ==
     [] dt = "f" -> (v.k = "float" /\ v.fin) \/ (v.k = "str" /\ AccF(v.chars))
     [] dt = "Z" -> v.k = "str" /\ AccZ(v.chars)
     [] dt = "A" -> v.k = "str" /\ AccA(v.chars)
-    [] dt = "J" -> (v.k \in {"dict", "list"}) \/ (v.k = "numlist" /\ v.fin)
+    [] dt = "J" -> (v.k \in {"dict", "list"}) \/ (v.k \in {"numlist", "numarray"} /\ v.fin)
                    \/ (v.k = "str" /\ AccJ(v.chars))
     [] dt = "B" -> (v.k \in {"numlist", "numarray"} /\ NumArrayOK(v))
                    \/ (v.k = "str" /\ StrBOK(v.chars))
@@ -371,4 +371,49 @@ AllStatements(s, op, o) ==
   /\ PValidNeverRejected(s, op, o) /\ PRepSound(s, op, o)
   /\ PCloneDetachedEqual(s, op, o) /\ PFrame(s, op, o) /\ PGfaFollows(s, op, o)
   /\ PFailStutters(s, op, o)
+
+-----------------------------------------------------------------------------
+(* PART 5 -- the validation level of a line that belongs to a Gfa, and the
+   history of one custom tag.
+
+   (a) doc/tutorial/validation.rst: "The validation level can be specified when
+   the Gfa object is created"; C18 quantifies over the levels "per Gfa and per
+   Line".  Every line a Gfa constructs from text -- whatever the entry point
+   (constructor from a text or a list, add_line before or after the version is
+   known, lines held in the queue, from_file) -- works at the level of that
+   Gfa.  The report points of C18 for such a line are those of Step with
+   lvl = the Gfa's level.                                                      *)
+LineLevelOf(gfaLevel) == gfaLevel
+LevelPropagated(gfaLevel, lineLevel) == lineLevel = LineLevelOf(gfaLevel)
+
+(* (b) One custom tag of one line through a sequence of calls
+         set(value) / delete / set(None) / set_datatype(t).
+   State: [present, dt, v] -- dt = "none": no datatype is recorded for the tag;
+   v: descriptor of the value held (PART 3).
+     - a value assigned while no datatype is recorded gets the documented default
+       datatype of the value (the tag is NEW); otherwise the recorded datatype is used;
+     - set_datatype(t) records t (also before a value exists; tags.rst) until the
+       tag is removed;
+     - delete(tag) removes value AND datatype: afterwards the tag does not exist, a
+       later assignment is an assignment to a new tag; on a tag that has no value it
+       does nothing (FieldData.delete: "Remove a tag from the line, if it exists; do
+       nothing if it does not"), so a datatype declared in advance stays declared;
+     - set(tag, None) is the same removal: tags.rst "To remove a tag from a line, use
+       the delete(fieldname) method, or set its value to None".
+   A set that is refused (a gfapy.Error; allowed when the datatype in force
+   cannot represent the value) changes nothing.                               *)
+NoVal == [k |-> "none", n |-> Zero, fin |-> TRUE, chars |-> <<>>, el |-> "none", elems |-> <<>>, len |-> 0]
+HState(present, dt, v) == [present |-> present, dt |-> dt, v |-> v]
+HAbsent == HState(FALSE, "none", NoVal)
+\* the datatypes a value assigned now may get
+HDatatypes(h, v) == IF h.dt = "none" THEN DefaultDTs(v) ELSE {h.dt}
+\* post-state; `refused`: the call raised a gfapy.Error; `dtobs`: the datatype gfapy reports
+\* afterwards (it selects among HDatatypes when the documentation leaves a choice)
+HStep(h, op, refused, dtobs) ==
+  CASE refused -> h
+    [] op.k = "set" -> LET D == HDatatypes(h, op.v) IN
+                       HState(TRUE, IF dtobs \in D THEN dtobs ELSE CHOOSE d \in D : TRUE, op.v)
+    [] op.k \in {"delete", "setnone"} -> IF h.present THEN HAbsent ELSE h
+    [] op.k = "setdt" -> [h EXCEPT !.dt = op.t]
+    [] OTHER -> h
 =============================================================================
